@@ -244,6 +244,14 @@ impl Prop for C06 {
     fn id(&self) -> &'static str {
         "C06"
     }
+    fn run_cap_secs(&self, tier: Tier) -> u64 {
+        // the world with 64 KiB hash slots spends seconds in Base58
+        if tier == Tier::Quick {
+            90
+        } else {
+            180
+        }
+    }
     fn rule(&self) -> String {
         "per scenario 300..3000 output scripts on one of the six fork coins, packed as outputs of a few transactions: every template (P2PKH, P2PK, P2SH, OP_RETURN-data, 2-of-3 multisig) with every push form that can carry each slot (direct, PUSHDATA1/2/4), payload sizes incl. 75/76/255/256/520, zero-length pushes in every form, truncations by 1..n bytes, PUSHDATA lengths past the end (incl. 2^31, 2^32-1), no-op insertions at token boundaries, one-byte substitution/deletion/extension, all leading opcodes, random token sequences, random bytes, CLTV/CSV scripts (abstained on). csvdump gives the address per script, simplestats the per-type counts and first occurrences; both compared with the reference tokeniser/typer; worker count, delays and read chunking are perturbed. Non-trivial = scenario contains a PUSHDATA-carried template slot; distinct by scenario hash.".into()
     }
@@ -255,12 +263,30 @@ impl Prop for C06 {
         }
     }
     fn required_probes(&self, _tier: Tier) -> Vec<&'static str> {
-        vec!["ref_type_P2PKH", "ref_type_P2PK", "ref_type_P2SH", "ref_type_OpReturn", "ref_type_MultiSig", "ref_type_NotRecognised", "pushdata_slot"]
+        vec!["ref_type_P2PKH", "ref_type_P2PK", "ref_type_P2SH", "ref_type_OpReturn", "ref_type_MultiSig", "ref_type_NotRecognised", "pushdata_slot", "hash_slot_of_64k_bytes"]
     }
     fn explore(&self, item: u64, rng: &mut Rng, _tier: Tier, h: &mut Harness) -> Result<(), String> {
         let coin = COINS[2 + (item % 6) as usize];
         let n = rng.usize(300, 3000);
-        let scripts = fork_scripts(rng, n);
+        let mut scripts = fork_scripts(rng, n);
+        if rng.coin() {
+            scripts.retain(|s| scriptref::eval(coin, s).ty != Ty::Unknown);
+            h.stats.probe("world_without_abstentions");
+        }
+        if item == 7 {
+            // one world with hash slots beyond 64 KiB (PUSHDATA4): the address is the Base58Check of whatever
+            // was pushed. Base58 is quadratic — seconds per script — hence one world, two scripts.
+            scripts.truncate(40);
+            let mut a = vec![0x76, 0xa9];
+            a.extend(pf(&rng.bytes(65_536), 4));
+            a.extend_from_slice(&[0x88, 0xac]);
+            let mut b = vec![0xa9];
+            b.extend(pf(&rng.bytes(65_535), 2));
+            b.push(0x87);
+            scripts.push(a);
+            scripts.push(b);
+            h.stats.probe("hash_slot_of_64k_bytes");
+        }
         let mut scn = script_world("C06", coin, scripts, rng);
         h.check(&mut scn)?;
         Ok(())
@@ -346,7 +372,13 @@ impl Prop for C05 {
             return Ok(());
         }
         let n = rng.usize(300, 3000);
-        let scripts = bitcoin_scripts(rng, n);
+        let mut scripts = bitcoin_scripts(rng, n);
+        // the type counts are exact only in a world without abstentions (each abstained script is one unit of
+        // slack in every count): half of the worlds are built from scripts the reference is certain about
+        if rng.coin() {
+            scripts.retain(|s| scriptref::eval(coin, s).ty != Ty::Unknown);
+            h.stats.probe("world_without_abstentions");
+        }
         let mut scn = script_world("C05", coin, scripts, rng);
         h.check(&mut scn)?;
         Ok(())
